@@ -259,6 +259,28 @@ def typed_arguments(prog, rep):
                 continue
             rep.check(ann in checked, "ARG-TYPED", fi.short, f"parameter {p.arg}: {ann}", f"one of {sorted(checked)}", f"parameter `{p.arg}` of built-in {fi.short} is annotated `{ann}`, which the typecheck wrapper does not recognise (it verifies only {sorted(checked)}): the argument is passed through unverified, so e.g. a string or number where a list of events is expected reaches the transform and a foreign exception (AttributeError / TypeError) escapes the query", fi.loc(p))
     rep.floor("registered built-ins", n_f, 18)
+    # an optional parameter is not verified by the wrapper (documented FIXME): the built-in may only test it for truth or
+    # compare it -- an attribute / method / item access or arithmetic on it fails for a value of another type
+    for fi in prog.funcs.values():
+        if not (fi.mod.name == "aw_query.functions" and fi.outer is None and any(d.startswith("q2_function") for d in fi.decorators)):
+            continue
+        a = fi.node.args
+        pos = a.posonlyargs + a.args
+        opt = {p.arg for p in pos[len(pos) - len(a.defaults):]} | {p.arg for p in a.kwonlyargs}
+        opt = {p for p in opt if fi.annotations.get(p) not in injected}
+        for nm in [x for x in walk_with_nested_exprs(fi.node) if isinstance(x, ast.Name) and x.id in opt and isinstance(x.ctx, ast.Load)]:
+            par = parent(nm)
+            risky = (isinstance(par, (ast.Attribute, ast.Subscript)) and par.value is nm) or isinstance(par, (ast.BinOp,)) or (isinstance(par, ast.UnaryOp) and not isinstance(par.op, ast.Not))
+            if not risky:
+                continue
+            # ... unless the enclosing try turns the failure into a query error
+            t = par
+            guarded = False
+            while t is not None and t is not fi.node:
+                if isinstance(t, ast.Try) and any(h.type is None or any(k in norm(h.type) for k in ("AttributeError", "TypeError", "Exception")) for h in t.handlers) and any(nm is y for b in t.body for y in ast.walk(b)):
+                    guarded = True
+                t = parent(t)
+            rep.check(guarded, "ARG-TYPED", fi.short, f"use of optional parameter {nm.id}", "tested for truth / compared only", f"`{norm(par)[:60]}`: `{nm.id}` has a default, so the typecheck wrapper does not verify it; a query that passes a value of another type (e.g. a number) reaches this operation and AttributeError / TypeError escapes instead of a query error", fi.loc(nm))
 
 
 def raise_kinds(prog, rep):
@@ -452,6 +474,7 @@ def check(prog, rep):
 
 
 VARIANTS = [
+    ("B find_bucket lower-cases its optional (unverified) hostname argument", QF, "                if bucket_metadata[\"hostname\"] == hostname:", "                if bucket_metadata[\"hostname\"].lower() == hostname.lower():", "ARG-TYPED"),
     ("B event-list parameter annotated List[Event] (typecheck skips it)", QF, "def q2_sort_by_duration(events: list) -> List[Event]:", "def q2_sort_by_duration(events: List[Event]) -> List[Event]:", "ARG-TYPED"),
     ("B built-in registered without the typecheck wrapper", QF, "@q2_function(sort_by_timestamp)\n@q2_typecheck\n", "@q2_function(sort_by_timestamp)\n", "ARG-TYPED"),
     ("B error text built from the class of a blank token", "aw_query/query2.py", "raise QueryParseException(\"Cannot assign to a non-variable\")", "raise QueryParseException(f\"Cannot assign to a {var_t.__name__}\")", "IMPLICIT-RAISE"),
